@@ -18,6 +18,7 @@ import (
 	"github.com/irai/packet/handlers/arp_spoofer"
 	"github.com/irai/packet/handlers/dhcp4_spoofer"
 	"github.com/irai/packet/handlers/dns_naming"
+	"github.com/irai/packet/handlers/icmp_spoofer"
 
 	"verif/harness/gen"
 	"verif/harness/mon"
@@ -619,7 +620,9 @@ func c20LibraryLog(t *c20, e gen.Env, next func() bool) {
 		scratch = os.TempDir()
 	}
 	mon.Log.Counting(true)
-	loggers := []*fastlog.Logger{packet.Logger, arp_spoofer.Logger, dhcp4_spoofer.Logger, dns_naming.Logger}
+	loggers := []*fastlog.Logger{packet.Logger, arp_spoofer.Logger, dhcp4_spoofer.Logger, dns_naming.Logger, dns_naming.LoggerMDNS, icmp_spoofer.Logger4, icmp_spoofer.Logger6}
+	dns_naming.Debug = true
+	defer func() { dns_naming.Debug = false }()
 	n := c.N(64, 1600)
 	for k := int64(0); k < n; k++ {
 		if !next() {
